@@ -7,7 +7,7 @@ import conc
 import driver
 
 PROPERTIES_FILE = "Properties/Properties_C10.v"
-COQ_DEPS = ["Proofs/Apply_proofs.vo"]
+COQ_DEPS = ["Proofs/Apply_proofs.vo", "Proofs/ApplyR_proofs.vo"]
 GEN_MODULES = ["Gen_apply"]
 LEVEL = "proof"
 TRUSTED = [
@@ -349,6 +349,277 @@ def analyse_stress(text, label):
     return fails, stats, per, hang
 
 
+
+# ---------------------------------------------------------------------------------------------- global replay (Model/ApplyR.v)
+M64 = (1 << 64) - 1
+UMAX32 = (1 << 32) - 1
+PC_NAMES = ["PIdle", "PFirst", "PCall", "PInCall", "PNext", "PSub", "PSignal", "PWake", "PWaitDec", "PWaitLoad", "PWaitFutex",
+            "PWaitSleep", "PDec", "PDone", "PRet", "PCrash"]
+
+
+def cut_rounds(allparts):
+    """a round = one dispatch_apply = all runs of _dispatch_apply_invoke2 on one record between its allocation and its free.
+    The record's address is reused only after the free, so per (seed, address) the runs sorted by the stamp of their final
+    da_thr_cnt decrement fall into consecutive groups, each ending with the decrement that observed 1.
+    returns (rounds, problems); round = dict(parts=[...], complete=bool)"""
+    by = {}
+    for p in allparts:
+        by.setdefault((p["seed"], p["base"]), []).append(p)
+    rounds, problems = [], []
+    for key, ps in by.items():
+        def decseq(p):
+            d = [e for e in p["events"] if e.kind == 7 and e.off == 48]
+            return d[-1].seq if d else p["events"][-1].seq
+        ps.sort(key=decseq)
+        cur = []
+        for p in ps:
+            cur.append(p)
+            decs = [e.a for q in cur for e in q["events"] if e.kind == 7 and e.off == 48]
+            if 1 in decs:
+                if len(decs) == len(cur) and sorted(decs) == list(range(1, len(cur) + 1)):
+                    rounds.append({"parts": cur, "complete": True})
+                else:
+                    problems.append({"what": "the da_thr_cnt decrements of one apply record are not T, T-1, .., 1: %s (%d runs of invoke2)"
+                                             % (sorted(decs, reverse=True)[:20], len(cur)), "detail": {"seed": key[0]}})
+                cur = []
+        if cur and not any(q.get("truncated") for q in cur):
+            rounds.append({"parts": cur, "complete": False})
+    return rounds, problems
+
+
+def order_round(rd):
+    """participant ids, action lists and a global order consistent with every participant's program order and with the exact
+    old->new chains of da_index, da_todo, da_thr_cnt and the thread event.  returns dict or an error string"""
+    parts_ = rd["parts"]
+    callers = [p for p in parts_ if p["wait"]]
+    if len(callers) != 1:
+        return "a round with %d caller runs" % len(callers)
+    ns = set(p["n"] for p in parts_)
+    if len(ns) != 1:
+        return "participants disagree on da_iterations: %s" % sorted(ns)
+    n = ns.pop()
+    ordered = callers + [p for p in parts_ if not p["wait"]]
+    acts = {}       # pid -> [Ev]
+    for k, p in enumerate(ordered):
+        evs = list(p["events"])
+        if p["wait"]:
+            evs = [e for e in evs if e.kind != 104]      # the caller is inside invoke2 in the model's initial state
+        acts[k + 1] = evs
+    nodes = [(pid, i) for pid, evs in acts.items() for i in range(len(evs))]
+    ev = lambda nd: acts[nd[0]][nd[1]]
+    succ, indeg = {nd: [] for nd in nodes}, {nd: 0 for nd in nodes}
+
+    def edge(a, b):
+        if a != b:
+            succ[a].append(b)
+            indeg[b] += 1
+    for pid, evs in acts.items():
+        for i in range(len(evs) - 1):
+            edge((pid, i), (pid, i + 1))
+    idx = sorted([nd for nd in nodes if ev(nd).kind == 6 and ev(nd).off == 8], key=lambda nd: ev(nd).a)
+    if [ev(nd).a for nd in idx] != list(range(len(idx))):
+        return "da_index chain is not 0,1,2,..: %s" % [ev(nd).a for nd in idx][:40]
+    todo = sorted([nd for nd in nodes if ev(nd).kind == 7 and ev(nd).off == 16], key=lambda nd: -ev(nd).a)
+    cur = n
+    for nd in todo:
+        if ev(nd).a != cur:
+            return "da_todo chain broken: a subtraction observed %d, expected %d" % (ev(nd).a, cur)
+        cur = (cur - ev(nd).b) & M64
+    thr = sorted([nd for nd in nodes if ev(nd).kind == 7 and ev(nd).off == 48], key=lambda nd: -ev(nd).a)
+    if not thr:
+        return "no da_thr_cnt decrement recorded"
+    T = ev(thr[0]).a
+    if [ev(nd).a for nd in thr] != list(range(T, T - len(thr), -1)):
+        return "da_thr_cnt chain is not T,T-1,..: %s" % [ev(nd).a for nd in thr][:40]
+    if len(parts_) > T:
+        return "%d runs of invoke2 on a record whose da_thr_cnt started at %d" % (len(parts_), T)
+    for chain_ in (idx, todo, thr):
+        for a, b in zip(chain_, chain_[1:]):
+            edge(a, b)
+    sig = [nd for nd in nodes if ev(nd).kind == 6 and ev(nd).off == 40]
+    wdec = [nd for nd in nodes if ev(nd).kind == 7 and ev(nd).off == 40]
+    if len(sig) > 1 or len(wdec) > 1:
+        return "thread event signalled %d times, waited on %d times" % (len(sig), len(wdec))
+    evt = 0
+    if sig and wdec:
+        if ev(wdec[0]).a == 1:
+            edge(sig[0], wdec[0])
+        else:
+            edge(wdec[0], sig[0])
+    if sig:
+        for nd in nodes:
+            e = ev(nd)
+            if e.kind == 1 and e.off == 40:
+                edge(sig[0], nd) if e.a == 0 else edge(nd, sig[0])
+            if e.kind == 32:                      # futex_wait: slept iff the kernel saw UINT32_MAX, i.e. before the signal
+                rets = [acts[nd[0]][j] for j in range(nd[1] + 1, len(acts[nd[0]])) if acts[nd[0]][j].kind == 33]
+                if rets and rets[0].b == 11:
+                    edge(sig[0], nd)
+                else:
+                    edge(nd, sig[0])
+        wakes = [nd for nd in nodes if ev(nd).kind == 34]
+        for w_ in wakes:
+            for nd in nodes:
+                if ev(nd).kind == 33 and ev(nd).b == 0:
+                    later = [x for x in nodes if x[0] == nd[0] and x[1] > nd[1] and ev(x).kind == 33]
+                    if not later:                 # the last return of futex_wait is the one the wake-up caused
+                        edge(w_, nd)
+    import heapq
+    heap = [(ev(nd).seq, nd) for nd in nodes if indeg[nd] == 0]
+    heapq.heapify(heap)
+    order = []
+    while heap:
+        _, nd = heapq.heappop(heap)
+        order.append(nd)
+        for m in succ[nd]:
+            indeg[m] -= 1
+            if indeg[m] == 0:
+                heapq.heappush(heap, (ev(m).seq, m))
+    if len(order) != len(nodes):
+        return "no global order is consistent with program order and the exact chains of the shared words"
+    for nd in order:                              # the event word after all recorded writes
+        e = ev(nd)
+        if e.off == 40 and e.kind == 6:
+            evt = (evt + 1) & UMAX32
+        elif e.off == 40 and e.kind == 7:
+            evt = (evt - 1) & UMAX32
+    final = {"index": len(idx) & M64, "todo": cur, "thrcnt": T - len(thr), "evt": evt, "freed": 1 if T - len(thr) == 0 else 0,
+             "returned": 1 if any(e.kind == 101 for e in acts[1]) else 0}
+    return {"n": n, "T": T, "acts": acts, "order": [nd[0] for nd in order], "final": final, "nactions": len(nodes)}
+
+
+def coq_replay(name, jobs, window=6, timeout=900, workers=4, chunk_actions=5000):
+    """jobs: list of order_round results; returns the int lists of ApplyR.replay, one per job"""
+    import re
+    from concurrent.futures import ThreadPoolExecutor
+    chunks, i = [], 0
+    while i < len(jobs):
+        part, k = [], 0
+        while i < len(jobs) and (not part or k + jobs[i]["nactions"] <= chunk_actions):
+            part.append(jobs[i])
+            k += jobs[i]["nactions"]
+            i += 1
+        chunks.append((i, part))
+
+    def z(x):
+        return "(%d)" % x if x < 0 else str(x)
+
+    def one(arg):
+        ci, part = arg
+        body = ["Definition A (t k o f sz a b : Z) : sact := mkSA t (mkEv k o 0 f sz a b 1)."]
+        calls = []
+        for k, j in enumerate(part):
+            qs = []
+            for pid, evs in j["acts"].items():
+                qs.append("(%d, [%s])" % (pid, "; ".join("A %d %d %d %s %d %s %s" % (pid, e.kind, e.order, z(e.off), e.size, z(e.a), z(e.b))
+                                                         for e in evs)))
+            body.append("Definition qs%d : list (Z * list sact) := [%s]." % (k, ";\n".join(qs)))
+            body.append("Definition ord%d : list Z := [%s]." % (k, "; ".join(str(t) for t in j["order"])))
+            tids = "[%s]" % "; ".join(str(t) for t in list(j["acts"].keys()) + [len(j["acts"]) + 1])
+            calls.append("replay %d %d 1 %d %s %s qs%d ord%d" % (j["n"], j["T"], window, "true" if j["nactions"] <= 700 else "false",
+                                                                  tids, k, k))
+        body.append("Eval vm_compute in [%s]." % "; ".join(calls))
+        ok, vals, raw = driver.coq_eval("%s_%d" % (name, ci), ["Word", "Conc", "Gen_apply", "Apply", "ApplyR"], "\n".join(body) + "\n",
+                                        timeout=timeout)
+        if not ok or len(vals) != 1:
+            raise RuntimeError("coq replay evaluation failed: " + raw[-2000:])
+        got = [driver.ints(r) for r in re.findall(r"\[([^\[\]]*)\]", vals[0])]
+        if len(got) != len(part):
+            raise RuntimeError("coq replay: %d results for %d rounds" % (len(got), len(part)))
+        return got
+    out = []
+    with ThreadPoolExecutor(max_workers=workers) as ex:
+        for got in ex.map(one, chunks):
+            out += got
+    return out
+
+
+def round_rank(rd):
+    ks = set(e.kind for p in rd["parts"] for e in p["events"])
+    r = 0
+    if 32 in ks: r -= 8
+    if 34 in ks: r -= 8
+    if not rd["complete"]: r -= 6
+    if any(p["wait"] and 102 not in set(e.kind for e in p["events"]) for p in rd["parts"]): r -= 4
+    if len(rd["parts"]) >= 8: r -= 2
+    return (r, sum(len(p["events"]) for p in rd["parts"]))
+
+
+def global_replay(tag, allparts, budget):
+    """every recorded round as a run of the global model; returns (mismatches, stats)"""
+    mism = []
+    st = {"rounds_recorded": 0, "rounds_replayed_as_runs_of_Apply_gstep": 0, "rounds_incomplete_at_end_of_recording_replayed": 0,
+          "model_actions_replayed": 0, "states_checked_against_inv_b": 0, "rounds_with_sleeping_caller_replayed": 0,
+          "rounds_with_slow_wake_replayed": 0, "rounds_ewouldblock_replayed": 0, "max_participants_in_a_replayed_round": 0,
+          "rounds_not_selected_budget": 0}
+    rounds, problems = cut_rounds(allparts)
+    mism += problems
+    st["rounds_recorded"] = len(rounds)
+    jobs, used = [], 0
+    for rd in sorted(rounds, key=round_rank):
+        size = sum(len(p["events"]) for p in rd["parts"])
+        if used + size > budget:
+            st["rounds_not_selected_budget"] += 1
+            continue
+        j = order_round(rd)
+        if isinstance(j, str):
+            mism.append({"what": "a recorded round of dispatch_apply cannot be laid out as one run: " + j,
+                         "detail": {"seed": rd["parts"][0]["seed"], "iterations": rd["parts"][0]["n"], "participants": len(rd["parts"])}})
+            continue
+        j["rd"] = rd
+        jobs.append(j)
+        used += size
+    res = coq_replay(tag, jobs) if jobs else []
+    for j, r in zip(jobs, res):
+        (done, left, index, todo, thrcnt, evt, freed, uaf, dcbad, returned, invbad, invfirst, alldone, nparts, stuck, stuck_left,
+         stuck_pc) = r
+        f = j["final"]
+        rd = j["rd"]
+        problems = []
+        first_unmatched = None
+        if left != 0 or done != j["nactions"]:
+            if stuck in j["acts"]:
+                evs = j["acts"][stuck]
+                k = len(evs) - stuck_left
+                first_unmatched = {"participant": stuck, "caller": stuck == 1, "action_index": k,
+                                   "action": evs[k].brief() if 0 <= k < len(evs) else None,
+                                   "before": [e.brief() for e in evs[max(0, k - 4):k]],
+                                   "model_program_point": PC_NAMES[stuck_pc] if 0 <= stuck_pc < len(PC_NAMES) else stuck_pc,
+                                   "model_words": {"da_index": index, "da_todo": todo, "da_thr_cnt": thrcnt, "event": evt,
+                                                   "participants_entered": nparts}}
+            problems.append("the model took %d of %d actions; then no pending action within the window of the preferred order was "
+                            "enabled with the recorded outcome (first unmatched action: %s)" % (done, j["nactions"], first_unmatched))
+        else:
+            got = {"index": index, "todo": todo, "thrcnt": thrcnt, "evt": evt, "freed": freed, "returned": returned}
+            if got != f:
+                problems.append("end state of the model %s differs from the recorded one %s" % (got, f))
+            if uaf or dcbad:
+                problems.append("the model flags an access after free (uaf=%d) / a read of da_dc after return (dcbad=%d)" % (uaf, dcbad))
+            if returned and not alldone:
+                problems.append("returned although not every index below n began and ended exactly once in the model")
+        if invbad:
+            problems.append("inv_b is FALSE on %d state(s) of the replay, first at step %d: a reachable state contradicting the proved "
+                            "invariant's executable version" % (invbad, invfirst))
+        if problems:
+            detail = {"seed": rd["parts"][0]["seed"], "iterations": j["n"], "thr_cnt": j["T"], "participants": len(rd["parts"]),
+                      "complete": rd["complete"], "result": r, "order_head": j["order"][:60]}
+            if first_unmatched:
+                detail["first_unmatched_action"] = first_unmatched
+            mism.append({"what": "a recorded round of dispatch_apply is not reproduced as a run of the global model (ApplyR.sched on "
+                                 "Apply.gstep): " + "; ".join(problems), "detail": detail})
+            continue
+        st["rounds_replayed_as_runs_of_Apply_gstep"] += 1
+        st["model_actions_replayed"] += j["nactions"]
+        st["states_checked_against_inv_b"] += j["nactions"] if j["nactions"] <= 700 else 1
+        ks = set(e.kind for p in rd["parts"] for e in p["events"])
+        st["rounds_incomplete_at_end_of_recording_replayed"] += 0 if rd["complete"] else 1
+        st["rounds_with_sleeping_caller_replayed"] += 1 if 32 in ks else 0
+        st["rounds_with_slow_wake_replayed"] += 1 if 34 in ks else 0
+        st["rounds_ewouldblock_replayed"] += 1 if any(e.kind == 33 and e.b == 11 for p in rd["parts"] for e in p["events"]) else 0
+        st["max_participants_in_a_replayed_round"] = max(st["max_participants_in_a_replayed_round"], len(rd["parts"]))
+    return mism, st
+
+
 def correspond(ctx):
     exe = build(ctx)
     quick = ctx.tier == "quick"
@@ -392,6 +663,9 @@ def correspond(ctx):
         for p in ps:
             p["seed"] = seed
         allparts += ps
+    gm, gst = global_replay("c10_replay", allparts, 30000 if quick else 300000)
+    mism += gm
+    dist.update(gst)
     good = [p for p in allparts if not p.get("truncated")]
     dist["participations_truncated_by_end_of_recording"] = len(allparts) - len(good)
     dist["caller_participations"] = sum(1 for p in good if p["wait"])
